@@ -10,12 +10,17 @@ from mirsym.engine import (Cell, Ref, Some, NONE, Enum, Struct, Vec, Int, Bool, 
 TLS = 'NEW_COMPILATION_LEVEL_INT'
 
 
+def _touched(eng):
+    return any(TLS in k for k in eng.statics)
+
+
+def _setting(eng):
+    """the mode as the crate itself reads it (NewStyleIntConversion::setting, from MIR), whatever its storage is"""
+    return eng.call('NewStyleIntConversion::setting', []).e
+
+
 def _record_mode(eng, tag):
-    for k, c in eng.statics.items():
-        if k.endswith(TLS):
-            eng.env.setdefault('seen_modes', []).append((tag, c.v.v.e))
-            return
-    eng.env.setdefault('seen_modes', []).append((tag, None))
+    eng.env.setdefault('seen_modes', []).append((tag, _setting(eng) if _touched(eng) else None))
 
 
 def nondet_result(tag):
@@ -71,33 +76,78 @@ class GuardRestores(Harness):
                  'compiler::compile_file', '<DefaultCompilerOpts as CompilerOpts>::compile_program']
     assumptions = ['every callee other than the guard is a stub that nondeterministically returns Ok, returns Err or panics and leaves the thread-local mode unchanged (induction hypothesis: the only functions that create a guard are the two checked here)',
                    'unwind edges of the MIR are followed, so panics inside callees are covered',
-                   'the initial mode and the dialect\'s int_fix are symbolic booleans']
-    outside = 'the fresh-name counter, hash iteration order and thread clauses of C05 (whole compilations)'
+                   'the initial mode and the dialect\'s int_fix are symbolic booleans',
+                   'threads case: two logical threads run new/read/drop each; the 6-step schedule is a vector of symbolic booleans; thread_local! storage is one cell per logical thread, statics are shared']
+    outside = 'the fresh-name counter and hash iteration order clauses of C05 (whole compilations); more than two threads or more than one guard per thread in the interleaving case; weak memory (every atomic access is one sequentially consistent step)'
+
+    STEPS = 3           # per thread: create the guard, read the mode, drop the guard
 
     def cases(self, tier):
         yield dict(fn='compile_file')
         yield dict(fn='compile_program')
         yield dict(fn='nested')
+        yield dict(fn='threads')
 
     def sym_inputs(self, case):
-        return dict(m0=z3.Bool('m0'), fix=z3.Bool('fix'), fix2=z3.Bool('fix2'))
+        return dict(m0=z3.Bool('m0'), m1=z3.Bool('m1'), fix=z3.Bool('fix'), fix2=z3.Bool('fix2'),
+                    sched=[z3.Bool('sched%d' % i) for i in range(2 * self.STEPS)])
 
     def conc_inputs(self, case, j):
-        return dict(m0=z3.BoolVal(j['m0']), fix=z3.BoolVal(j['fix']), fix2=z3.BoolVal(j.get('fix2', False)))
+        sched = list(j.get('sched', [])) + [False] * (2 * self.STEPS)
+        return dict(m0=z3.BoolVal(j['m0']), m1=z3.BoolVal(j.get('m1', True)), fix=z3.BoolVal(j['fix']),
+                    fix2=z3.BoolVal(j.get('fix2', False)), sched=[z3.BoolVal(bool(b)) for b in sched[:2 * self.STEPS]])
 
     def inputs_json(self, case, inp, model):
-        return dict(m0=bool(ev(model, inp['m0'])), fix=bool(ev(model, inp['fix'])), fix2=bool(ev(model, inp['fix2'])))
+        return dict(m0=bool(ev(model, inp['m0'])), m1=bool(ev(model, inp['m1'])), fix=bool(ev(model, inp['fix'])),
+                    fix2=bool(ev(model, inp['fix2'])), sched=[bool(ev(model, b)) for b in inp['sched']])
 
     def mode(self, eng):
-        for k, c in eng.statics.items():
-            if k.endswith(TLS):
-                return c.v.v.e
-        return None
+        return _setting(eng) if _touched(eng) else None
+
+    def run_threads(self, eng, inp, trace):
+        """two logical threads, each: guard = new(fix_t); read the mode; drop(guard) - interleaved by a schedule that is
+        an input of the query (sched[i] picks the thread of step i while both still have steps left).  Thread-locals
+        are per logical thread, ordinary statics are shared, exactly as in the language."""
+        fix = [inp['fix'], inp['fix2']]
+        m = [inp['m0'], inp['m1']]
+        init = []
+        for t in (0, 1):
+            eng.env['thread'] = t
+            eng.call('NewStyleIntConversion::new', [Bool(m[t])])          # establishes the thread's starting mode; never dropped
+            init.append(_setting(eng))
+        pcs = [0, 0]
+        guards = [None, None]
+        i = 0
+        while min(pcs) < self.STEPS or max(pcs) < self.STEPS:
+            avail = [t for t in (0, 1) if pcs[t] < self.STEPS]
+            if len(avail) == 1:
+                t = avail[0]
+            else:
+                t = 1 if eng.branch_bool(inp['sched'][i]) else 0
+            i += 1
+            eng.env['thread'] = t
+            if pcs[t] == 0:
+                guards[t] = Cell(eng.call('NewStyleIntConversion::new', [Bool(fix[t])]))
+            elif pcs[t] == 1:
+                trace.append(('thread%d_sees_its_own_mode' % t, _setting(eng), fix[t]))
+            else:
+                eng.call('<NewStyleIntConversion as Drop>::drop', [Ref(guards[t])])
+            pcs[t] += 1
+        for t in (0, 1):
+            eng.env['thread'] = t
+            trace.append(('thread%d_mode_restored' % t, _setting(eng), init[t]))
+        eng.env['thread'] = None
 
     def run(self, eng, case, inp):
-        eng.env['tls'] = {TLS: lambda: Cell(Bool(inp['m0']), 'refcell')}
         eng.env['stubs'] = mk_stubs()
         eng.env['seen_modes'] = []
+        eng.env['thread'] = None
+        if case['fn'] == 'threads':
+            trace = []
+            self.run_threads(eng, inp, trace)
+            return dict(mode=None, panicked=False, trace=trace, threads=True)
+        eng.call('NewStyleIntConversion::new', [Bool(inp['m0'])])          # the starting mode, set the way a caller would
+        m_start = _setting(eng)
         dialect = Struct('AcceptedDialect', [NONE(), mkbool(False), Bool(inp['fix'])])
 
         def dyn(eng_, trait, method, args, fr):
@@ -105,7 +155,8 @@ class GuardRestores(Harness):
                 return Struct('AcceptedDialect', [NONE(), mkbool(False), Bool(inp['fix'])])
             if method == 'filename':
                 return Vec([mkint(0x2a, 'u8')])
-            raise PathEnd('unsupported', 'dyn call %s::%s in C05 harness' % (trait, method))
+            from mirsym.engine import Unsupported
+            raise Unsupported('dyn call %s::%s in C05 harness case %s args %r' % (trait, method, case['fn'], args))
         eng.env['dyn_call'] = dyn
         panicked = False
         trace = []
@@ -137,7 +188,7 @@ class GuardRestores(Harness):
             panicked = True
         for tag, mterm in eng.env.get('seen_modes', []):
             trace.append(('mode_during_' + tag, mterm if mterm is not None else z3.Not(inp['fix']), inp['fix']))
-        return dict(mode=self.mode(eng), panicked=panicked, trace=trace)
+        return dict(mode=self.mode(eng), panicked=panicked, trace=trace, start=m_start)
 
     def dialect_index(self, eng):
         import os
@@ -148,18 +199,24 @@ class GuardRestores(Harness):
 
     def obligations(self, eng, case, inp, out):
         obs = []
+        if out.get('threads'):
+            return [(name, got == want) for name, got, want in out['trace']]
         if out['mode'] is None:
             # the thread-local was never touched: trivially unchanged, but then the guard was never created
             return [('guard_is_created', z3.BoolVal(False))]
-        obs.append(('mode_restored_on_%s' % ('unwind' if out['panicked'] else 'return'), out['mode'] == inp['m0']))
+        obs.append(('mode_restored_on_%s' % ('unwind' if out['panicked'] else 'return'), out['mode'] == out['start']))
         for name, got, want in out['trace']:
             obs.append((name, got == want))
         return obs
 
     def output_json(self, eng, case, inp, out, model):
+        if out.get('threads'):
+            return dict(trace=[[n, bool(ev(model, g)), bool(ev(model, w))] for n, g, w in out['trace']])
         return dict(mode_after=bool(ev(model, out['mode'])) if out['mode'] is not None else None, panicked=out['panicked'])
 
     def is_violation(self, case, j, native):
+        if case['fn'] == 'threads':
+            return not (all(native.get('sees_own', [False])) and all(native.get('restored', [False])))
         if case['fn'] == 'nested':
             return not native.get('restored', False)
         return not native.get('restored', False) or not native.get('during_ok', True)
@@ -170,13 +227,25 @@ class GuardRestores(Harness):
     def native_matches(self, case, j, native, predicted):
         # the harness forks on stub outcomes even for concrete inputs: no concrete conformance run; the native
         # kernel is only required to have observed the mode during compilation at least once
+        if case['fn'] == 'threads':
+            # the model's account of the run must be the native one, whether or not the property holds on it
+            if not isinstance(predicted, dict) or 'trace' not in predicted:
+                return False
+            tr = {n: g == w for n, g, w in predicted['trace']}
+            return ([tr.get('thread%d_sees_its_own_mode' % t) for t in (0, 1)] == native.get('sees_own') and
+                    [tr.get('thread%d_mode_restored' % t) for t in (0, 1)] == native.get('restored'))
         return case['fn'] == 'nested' or native.get('probes', 0) > 0
 
     def vectors(self, case, rnd):
+        if case['fn'] == 'threads':
+            # sequential schedules only: the conformance stage needs vectors on which any implementation that is right
+            # on one thread behaves; interleavings are the symbolic stage's business
+            return [dict(m0=a, m1=not a, fix=b, fix2=not b, sched=s) for a in (True, False) for b in (True, False)
+                    for s in ([False] * 6, [True] * 6)]
         return [dict(m0=a, fix=b, fix2=False) for a in (True, False) for b in (True, False)]
 
     def native_sane(self, native):
-        return native.get('probes', 0) > 0
+        return native.get('probes', 0) > 0 or 'sees_own' in native
 
     def witness_classes(self, case, inp, out):
         return [('returns', z3.BoolVal(not out['panicked'])), ('unwinds', z3.BoolVal(out['panicked']))]
